@@ -88,6 +88,20 @@ func fixedScenarios(rng *wh.Rng, thorough bool) []Scenario {
 			{Caller: "one", End: "cancel", Outcomes: []string{"err", "err", "ok"}}, {Caller: "early", End: "cancel", Outcomes: []string{"slow"}},
 		}})
 	}
+	// no OnListenForReplyFinished hook configured: the channel must be closed all the same; and, with the hook, the order
+	// close → hook observed by letting the hook wait for the draining caller to see the close
+	for _, ack := range []bool{false, true} {
+		reqs := []ReqSpec{
+			{Caller: "drain", End: "cancel", Outcomes: []string{"err", "ok"}}, {Caller: "drain", End: "parent", Outcomes: []string{"ok"}},
+			{Caller: "never", End: "cancel", Outcomes: []string{"err", "err", "ok"}}, {Caller: "one", End: "parent", Outcomes: []string{"err", "ok"}},
+			{Caller: "early", End: "cancel", Outcomes: []string{"ok"}, ReadAfter: true}, {Caller: "reply", End: "cancel", Outcomes: []string{"ok"}},
+		}
+		out = append(out, Scenario{AckErrs: ack, Shared: true, NoHook: true, Seed: rng.Next(), Reqs: append([]ReqSpec{}, reqs...)})
+		out = append(out, Scenario{AckErrs: ack, Shared: false, NoHook: true, Seed: rng.Next(), Reqs: []ReqSpec{{Caller: "drain", End: "cancel", Outcomes: []string{"ok"}}}})
+		out = append(out, Scenario{AckErrs: ack, Shared: true, NoHook: true, TimeoutMs: 25, Seed: rng.Next(), Reqs: []ReqSpec{
+			{Caller: "drain", End: "timeout", Outcomes: []string{"ok"}}, {Caller: "never", End: "timeout", Outcomes: []string{"ok"}}}})
+		out = append(out, Scenario{AckErrs: ack, Shared: true, HookWait: true, Seed: rng.Next(), Reqs: append([]ReqSpec{}, reqs...)})
+	}
 	// timeouts
 	for _, ack := range []bool{false, true} {
 		for _, shared := range []bool{true, false} {
@@ -166,6 +180,12 @@ func randomScenario(rng *wh.Rng, n int, ack, shared *bool) Scenario {
 		sc.Reqs = append(sc.Reqs, q)
 	}
 	sc.CloseSub = rng.Intn(8) == 0 && !small
+	switch rng.Intn(10) {
+	case 0, 1:
+		sc.NoHook = true
+	case 2:
+		sc.HookWait = true
+	}
 	sc.Normalise()
 	if rng.Intn(3) == 0 {
 		sc.Foreign = 1 + rng.Intn(4)
